@@ -7,7 +7,7 @@ import TracklibVerif.Drv.Util
      pool   : observations `x,y,z,Y,M,D,h,m,s,ms` joined by `;` — they form track 0
      ops    : joined by `;`, fields joined by `:` —
               a:k computeAbsCurv | s:k estimate_speed | f:k addAnalyticalFeature(speed) | d:k addAnalyticalFeature(ds,"ds")
-              I:k operate(INTEGRATOR,"ds","abs_curv") | D:k operate(DIFFERENTIATOR,"abs_curv","dd") | L:k length()
+              I:k operate(INTEGRATOR,"ds","abs_curv") | E:k operate("abs_curv=I{ds}") | D:k operate(DIFFERENTIATOR,"abs_curv","dd") | L:k length()
               c:k computeCurvAbsBetweenTwoPoints | g:k:name read | rm:k:name | w:k:name:v,v,… track[name]=list
               q:k:sorted|dur|t | add:i:j | ext:k:a:b | sl:k:a:b | cp:k | ex:k:i:x|y|z:v | et:k:i:field:v
      reply  : one block per op `res~names before~columns before~names after~columns after~heap` (names / columns of
@@ -97,6 +97,7 @@ def wop? (rd : String → Option α) (s : String) : Option (WOp (Option α)) :=
   | ["f", k] => k.toNat?.map .speedAF
   | ["d", k] => k.toNat?.map .dsAF
   | ["I", k] => k.toNat?.map .integ
+  | ["E", k] => k.toNat?.map .integExpr
   | ["D", k] => k.toNat?.map .diff
   | ["L", k] => k.toNat?.map .length
   | ["c", k] => k.toNat?.map .curvAbs
